@@ -1312,6 +1312,10 @@ class Parser:
                 f"Error encountered by YAML parser in {self.current_file}"
             ) from e
 
+        if data is None:
+            # empty file (or nothing but comments): no options
+            data = {}
+
         if data.get("compiler_options") is not None:
             for name, value in data["compiler_options"].items():
                 self.handle_compiler_options(name, value)
